@@ -461,4 +461,26 @@ example : substring "héllo".toList 3 none = "llo".toList := by decide
 example : substring "héllo".toList 2 (some 1) = "é".toList := by decide
 example : substring "hello".toList (-9223372036854775807) (some 3) = "hel".toList := by decide
 
+
+/-! ### assignment coercion -/
+
+/-- **T1d.** A value stored into an integer column is the assigned value itself and lies in the
+    column type's range — for every column type and every integer: the coercion never yields a
+    different (wrapped, truncated, saturated) number. -/
+theorem C24_assign_no_wrap (ty : ColTy) (i j : Int) (h : coerceTo ty i = some j) :
+    j = i ∧ inRangeTy ty j = true := by
+  unfold coerceTo at h
+  split at h
+  · next hr => cases h; exact ⟨rfl, hr⟩
+  · cases h
+
+/-- … and a value outside the range is not converted at all (the statement fails) -/
+theorem C24_assign_rejects_out_of_range (ty : ColTy) (i : Int) (h : inRangeTy ty i = false) :
+    coerceTo ty i = none := by
+  simp [coerceTo, h]
+
+example : coerceTo .smallint 32767 = some 32767 ∧ coerceTo .smallint 32768 = none ∧
+    coerceTo .smallint 70000 = none ∧ coerceTo .unsigned (-1) = none ∧
+    coerceTo .bigint 9223372036854775808 = none := by decide
+
 end VibeProof.C24
